@@ -241,8 +241,15 @@ class MapToMolecule(Processor):
             # set the resid of the new-molecule in case we don't start with 1
             nx.set_node_attributes(new_mol, resid_dict[start_node], "resid")
 
-            # we store the block together with the residue node
-            meta_molecule.nodes[start_node]["graph"] = new_mol.copy()
+            # we store the block together with the residue node; like for
+            # all other residues the attributes of the residue node are
+            # propagated to the atoms of the residue
+            correspondence = {node: node for node in new_mol.nodes}
+            residue = _correspondence_to_residue(meta_molecule,
+                                                 new_mol,
+                                                 correspondence,
+                                                 start_node)
+            meta_molecule.nodes[start_node]["graph"] = residue
 
         # now we loop over the rest of the nodes
         for node in node_keys[1:]:
